@@ -97,9 +97,23 @@ def cargo_check(features, default=False):
 
 def replay_binary():
     """builds /verif/replay against the working tree (path dependency on /repo); returns the binary path"""
-    tgt = os.path.join(CACHE, 'tgt-replay')
+    src, tgt = crate_for_repo('replay')
     with Lock('replay'):
-        p = subprocess.run(['cargo', 'build', '--offline', '--release'], cwd=os.path.join(VERIF, 'replay'),
-                           env=dict(ENV, CARGO_TARGET_DIR=tgt), capture_output=True, text=True)
+        p = subprocess.run(['cargo', 'build', '--offline', '--release'], cwd=src, env=dict(ENV, CARGO_TARGET_DIR=tgt), capture_output=True, text=True)
     if p.returncode != 0: raise RuntimeError('verif-replay does not build against the working tree:\n' + p.stderr[-3000:])
     return os.path.join(tgt, 'release', 'verif-replay')
+
+
+def crate_for_repo(name):
+    """the replay crates depend on the repository by path; when the checks are pointed at another checkout (VF_REPO) a copy of the crate with that
+    path is used so that natively replayed code is always the code whose MIR was analysed"""
+    src = os.path.join(VERIF, name); tgt = os.path.join(CACHE, 'tgt-' + name)
+    if REPO == '/repo': return src, tgt
+    tag = hashlib.sha1(REPO.encode()).hexdigest()[:8]
+    dst = os.path.join(CACHE, '%s-src-%s' % (name, tag))
+    subprocess.run(['rsync', '-a', '--delete', '--exclude', 'target', src + '/', dst + '/'], check=True)
+    t = open(os.path.join(dst, 'Cargo.toml')).read().replace('path = "/repo"', 'path = "%s"' % REPO)
+    open(os.path.join(dst, 'Cargo.toml'), 'w').write(t)
+    if name == 'replay_cfg':      # include_bytes! of the RSA fixtures is relative to the sibling crate
+        m = os.path.join(dst, 'src', 'main.rs'); open(m, 'w').write(open(m).read().replace('../../replay/keys/', os.path.join(VERIF, 'replay', 'keys') + '/'))
+    return dst, tgt + '-' + tag
